@@ -359,21 +359,35 @@ def replay_builder(init, seq):
     return b
 
 
-def core_sequences(length):
-    """cheaper enumeration: extend valid prefixes level by level"""
+def extensions(init, seq):
+    """all valid one-letter extensions of a prefix"""
+    for letter in LETTERS:
+        for pl in PLACEMENTS:
+            if not seq and pl != "new":
+                continue
+            b = replay_builder(init, seq)
+            if b.add(ALPHABET[letter], pl):
+                yield seq + ((letter, pl),)
+
+
+def core_sequences(length, shard, nshards, rng, sample):
+    """lengths 1..3 completely: levels 1 and 2 are built by every shard (cheap) and judged by index modulo; each shard then
+    extends only its share of the length-2 prefixes to length 3 (all extensions) and, for length 4, samples the extensions of
+    those (memory and time stay proportional to the shard's share)"""
     level = [(init, ()) for init in INITS]
-    for depth in range(length):
-        nxt = []
-        for init, seq in level:
-            for letter in LETTERS:
-                for pl in PLACEMENTS:
-                    if not seq and pl != "new":
-                        continue
-                    b = replay_builder(init, seq)
-                    if b.add(ALPHABET[letter], pl):
-                        nxt.append((init, seq + ((letter, pl),)))
-        level = nxt
-        yield depth + 1, level
+    for depth in (1, 2):
+        level = [(init, ext) for init, seq in level for ext in extensions(init, seq)]
+        yield depth, [x for k, x in enumerate(level) if k % nshards == shard], True
+        if depth == length:
+            return
+    for init, seq in [x for k, x in enumerate(level) if k % nshards == shard]:
+        exts = [(init, ext) for ext in extensions(init, seq)]
+        yield 3, exts, True
+        if length >= 4:
+            for init3, seq3 in exts:
+                picked = [(init3, ext) for ext in extensions(init3, seq3) if rng.random() < sample]
+                if picked:
+                    yield 4, picked, False
 
 
 def random_history(rng):
@@ -439,7 +453,7 @@ def count_placements(ctx, seq):
 def shards(tier, seed):
     n = 16
     out = [dict(shard=i, nshards=n, seed=seed, mode="core", length=3 if tier == "quick" else 4,
-                sample=None if tier == "quick" else 0.08) for i in range(n)]
+                sample=None if tier == "quick" else 0.02) for i in range(n)]
     out += [dict(shard=100 + i, seed=seed, mode="random", n=300 if tier == "quick" else 40000) for i in range(n)]
     return out
 
@@ -447,22 +461,15 @@ def shards(tier, seed):
 def run(spec, ctx):
     if spec["mode"] == "core":
         rng = random.Random(f"C05core/{spec['seed']}/{spec['shard']}")
-        idx = 0
-        for depth, level in core_sequences(spec["length"]):
-            full = depth <= 3
-            for init, seq in level:
-                idx += 1
-                if idx % spec["nshards"] != spec["shard"]:
-                    continue
-                if not full and rng.random() > spec["sample"]:
-                    continue
+        shown = 0
+        for depth, items, full in core_sequences(spec["length"], spec["shard"], spec["nshards"], rng, spec["sample"] or 0.0):
+            for init, seq in items:
                 b = replay_builder(init, seq)
                 nt = judge(ctx, init, b, seq, "core", dict(kind="core", init=list(init), seq=[list(x) for x in seq]), full)
                 count_placements(ctx, seq)
                 ctx.case(("core", init, seq), nt,
-                         sample=dict(initial_registrations=list(init), actions=[list(x) for x in seq]) if depth == 3 and idx < 40 * spec["nshards"] else None)
-            if depth >= 3 and spec["shard"] == 0:
-                ctx.count("core_levels_completed")
+                         sample=dict(initial_registrations=list(init), actions=[list(x) for x in seq]) if depth == 3 and shown < 2 else None)
+                shown += depth == 3
         return
     base = f"C05/{spec['seed']}/{spec['shard']}"
     for i in range(spec["n"]):
